@@ -144,7 +144,7 @@ func TestC10Concurrent(t *testing.T) {
 		run(rp, t.Fatalf)
 		return
 	}
-	rapid.Check(t, func(rt *rapid.T) {
+	checkBudget(t, func(rt *rapid.T) {
 		cc := ConcCase{Blocks: rapid.IntRange(8, 32).Draw(rt, "blocks"), Writers: rapid.IntRange(2, 8).Draw(rt, "writers"),
 			Per: rapid.IntRange(1, 40).Draw(rt, "per"), Overlap: rapid.Bool().Draw(rt, "overlap"), WO: rapid.IntRange(0, 3).Draw(rt, "wo") == 0,
 			Lens: rapid.SliceOfN(rapid.IntRange(1, 8), 1, 5).Draw(rt, "lens"), Reopen: rapid.Bool().Draw(rt, "reopen")}
